@@ -331,7 +331,7 @@ void Mtz::read_history_and_batch_headers(AnyStream& stream) {
   while (stream.read(buf, 80) && ialpha4_id(buf) != ialpha4_id("MTZE")) {
     if (n_headers != 0) {
       const char* start = skip_blank(buf);
-      const char* end = rtrim_cstr(start, start+80);
+      const char* end = rtrim_cstr(start, buf+80);
       history.emplace_back(start, end);
       --n_headers;
     } else if (ialpha4_id(buf) == ialpha4_id("MTZH")) {
